@@ -187,7 +187,7 @@ pub fn run(ctx: &mut Ctx) {
     crate::props::run_regressions(ctx, "C06");
 
     ctx.layer("exhaustive");
-    let bounds: [(usize, usize); 3] = [(1, t.pick(11, 13)), (2, t.pick(9, 11)), (3, t.pick(7, 9))];
+    let bounds: [(usize, usize); 6] = [(1, t.pick(11, 13)), (2, t.pick(9, 11)), (3, t.pick(7, 9)), (4, t.pick(6, 7)), (5, t.pick(5, 6)), (6, t.pick(4, 5))];
     let mut cases = vec![];
     for &(dim, maxn) in &bounds {
         for n in 1..=maxn {
@@ -200,9 +200,9 @@ pub fn run(ctx: &mut Ctx) {
             own_classes(dim, n);
         }
     }
-    ctx.run_par(&SUB_EXACT, cases, Some(&format!("all (dim, max_size) with dim 1: <= {}, dim 2: <= {}, dim 3: <= {}", bounds[0].1, bounds[1].1, bounds[2].1)));
+    ctx.run_par(&SUB_EXACT, cases, Some(&format!("all (dim, max_size) with dim 1: <= {}, dim 2: <= {}, dim 3: <= {}, dim 4: <= {}, dim 5: <= {}, dim 6: <= {}", bounds[0].1, bounds[1].1, bounds[2].1, bounds[3].1, bounds[4].1, bounds[5].1)));
 
-    let beyond: Vec<GenCase> = [(1usize, bounds[0].1 + 1, t.pick(18usize, 22usize)), (2, bounds[1].1 + 1, t.pick(13, 14)), (3, bounds[2].1 + 1, t.pick(10, 11))]
+    let beyond: Vec<GenCase> = [(1usize, bounds[0].1 + 1, t.pick(18usize, 22usize)), (2, bounds[1].1 + 1, t.pick(13, 14)), (3, bounds[2].1 + 1, t.pick(10, 11)), (4, bounds[3].1 + 1, t.pick(10, 11)), (5, bounds[4].1 + 1, t.pick(10, 10)), (6, bounds[5].1 + 1, t.pick(8, 9))]
         .iter()
         .flat_map(|&(dim, lo, hi)| (lo..=hi).map(move |n| GenCase { dim, max_size: n }))
         .collect();
@@ -214,6 +214,10 @@ pub fn run(ctx: &mut Ctx) {
     ctx.run_prop(&SUB_MEMBER, || (connected_dset_strategy(1, 2..=m1), swaps()).prop_map(move |(ds, sw)| Member(ds.renumbered(&perm_from_swaps(ds.size, &sw)), m1)), n / 4);
     ctx.run_prop(&SUB_MEMBER, || (connected_dset_strategy(2, 7..=m2), swaps()).prop_map(move |(ds, sw)| Member(ds.renumbered(&perm_from_swaps(ds.size, &sw)), m2)), n);
     ctx.run_prop(&SUB_MEMBER, || (connected_dset_strategy(3, 6..=m3), swaps()).prop_map(move |(ds, sw)| Member(ds.renumbered(&perm_from_swaps(ds.size, &sw)), m3)), n);
+    let (m4, m5, m6) = (t.pick(10usize, 11usize), 10usize, t.pick(8usize, 9usize));
+    ctx.run_prop(&SUB_MEMBER, || (connected_dset_strategy(4, 5..=m4), swaps()).prop_map(move |(ds, sw)| Member(ds.renumbered(&perm_from_swaps(ds.size, &sw)), m4)), n / 4);
+    ctx.run_prop(&SUB_MEMBER, || (connected_dset_strategy(5, 4..=m5), swaps()).prop_map(move |(ds, sw)| Member(ds.renumbered(&perm_from_swaps(ds.size, &sw)), m5)), n / 4);
+    ctx.run_prop(&SUB_MEMBER, || (connected_dset_strategy(6, 4..=m6), swaps()).prop_map(move |(ds, sw)| Member(ds.renumbered(&perm_from_swaps(ds.size, &sw)), m6)), n / 4);
 }
 
 pub fn swaps() -> impl Strategy<Value = Vec<(u32, u32)>> {
